@@ -7,6 +7,7 @@ import (
 	"os"
 	"sort"
 	"strings"
+	"unicode/utf8"
 
 	"verifsim/internal/comp"
 	"verifsim/internal/env"
@@ -304,6 +305,9 @@ type cosimCounters struct {
 	probes    map[string]int
 	digest    *Digest
 	unordered int64
+	// the one fault kind of the co-simulation: the game state is re-drawn after every command
+	redraws       int64
+	lateDecisions int64
 }
 
 // transp is the worker's transparency-sample logger (nil = off).
@@ -429,6 +433,8 @@ func cosimEval(prop string, p *cosimProgram, plan *envPlan, cc *cosimCounters, o
 				}
 			}
 			if cc != nil {
+				cc.redraws += int64(len(want.Events))
+				cc.lateDecisions += int64(want.LateDecisions)
 				cc.finish[finishKind(want.Finish)]++
 				if cc.digest != nil {
 					cc.digest.Add(want.String())
@@ -619,6 +625,10 @@ func CosimWorker(pm *Params) (*Stats, []*Failure) {
 		}
 	}
 	st.Evaluations = cc.evals
+	if cc.redraws > 0 {
+		fc := st.Fault("game_state_redrawn_after_command")
+		fc.Configured, fc.Fired, fc.Effective = cc.redraws, cc.redraws, cc.lateDecisions
+	}
 	st.SimSteps = cc.steps
 	st.CompilerTicks = cc.ticks
 	st.BudgetRuns = cc.budget
@@ -785,6 +795,36 @@ func c05FullRun(pm *Params, run, runSeed uint64, gr *rng.R, cc *cosimCounters, s
 	ff, detail, entry, e, ta, tb, out := c05FullEval(src, &oa, &ob, files, envs, cc, f)
 	if ff == "" {
 		return nil
+	}
+	// minimise the source text: drop chunks of bytes while the same oracle still fails
+	// (candidates that no longer compile are simply not accepted)
+	{
+		menvs := envs
+		if entry != "" {
+			menvs = []env.Env{e}
+		}
+		budget := 800
+		in := src
+		for chunk := len(in) / 2; chunk >= 1 && budget > 0; chunk /= 2 {
+			for i := 0; i+chunk <= len(in) && budget > 0; {
+				cand := in[:i] + in[i+chunk:]
+				budget--
+				if !utf8.ValidString(cand) {
+					i += chunk
+					continue
+				}
+				if o2, _, _, _, _, _, _ := c05FullEval(cand, &oa, &ob, files, menvs, nil, nil); o2 == ff {
+					in = cand
+				} else {
+					i += chunk
+				}
+			}
+		}
+		if in != src {
+			if o2, d2, en2, e2, ta2, tb2, out2 := c05FullEval(in, &oa, &ob, files, menvs, nil, nil); o2 == ff {
+				src, detail, entry, e, ta, tb, out = in, d2, en2, e2, ta2, tb2, out2
+			}
+		}
 	}
 	r := &Replay{Version: 1, Engine: "cosim", Property: "C05", Oracle: ff, VerifSeed: pm.VerifSeed, Run: run, RunSeed: runSeed, Detail: detail,
 		Source: src, Options: &oa, Options2: &ob, Entry: entry, Expected: ta, Actual: tb, Output: out, FullFiles: files}
